@@ -5,7 +5,7 @@
    analyze iteration has at most 2*len+1 entries and the analyze iterator is fused.  Partial:
    "no engine loop exhausts its fuel" (E2) is proved on the engine fragment only; a hang of the
    code shows only as a watchdog timeout in the correspondence check. *)
-From RX Require Import Base.Prelude Model.Engine Model.Matcher Model.Api Model.Run Proofs.ScanFacts Proofs.AnalyzeFacts Proofs.AnalyzeIterFacts Model.Op Proofs.EngineFacts Proofs.EngineCorollaries.
+From RX Require Import Base.Prelude Model.Engine Model.Matcher Model.Api Model.Run Proofs.ScanFacts Proofs.AnalyzeFacts Proofs.AnalyzeIterFacts Model.Op Proofs.EngineFacts Proofs.EngineCorollaries Proofs.FrameFacts Proofs.FragmentApi.
 
 Theorem C06_token_bound_partial :
   forall matchf input, good_step matchf input -> forall s,
@@ -41,8 +41,35 @@ Theorem C06_analyze_fused :
     an_next_gen matchf proc input st = Ok (None, st') -> an_next_gen matchf proc input st' = Ok (None, st').
 Proof. exact an_fused. Qed.
 
+(* the token bound on the engine fragment with capturing groups, no hypothesis about the matcher *)
+Theorem C06_fragment_token_bound :
+  forall prog input,
+    simple input (p_case prog) (p_multi prog) (p_hasbackrefs prog) (p_maxparens prog) (p_op prog) ->
+    framed (p_op prog) ->
+    (p_hasbol prog = false /\ p_minlen prog = 0%N /\ p_prefix prog = None /\ p_icc prog = None /\ p_pre prog = []) ->
+    simple [] (p_case prog) (p_multi prog) (p_hasbackrefs prog) (p_maxparens prog) (p_op prog) ->
+    (forall s', matches prog [] 0 st0 <> MTrue s') ->
+    forall s, minv s ->
+      exists l, tok_all (matches prog input) input (S (S (S (length input)))) {| t_prev := Some 0; t_ms := s |} = Ok l
+                /\ length l <= length input + 1.
+Proof. exact fragment_token_bound. Qed.
+
+(* every match such a program reports is non-empty, inside the input, at or after the search
+   position, and leaves the matcher in a state it accepts again *)
+Theorem C06_fragment_good_step :
+  forall prog input,
+    simple input (p_case prog) (p_multi prog) (p_hasbackrefs prog) (p_maxparens prog) (p_op prog) ->
+    framed (p_op prog) ->
+    (p_hasbol prog = false /\ p_minlen prog = 0%N /\ p_prefix prog = None /\ p_icc prog = None /\ p_pre prog = []) ->
+    simple [] (p_case prog) (p_multi prog) (p_hasbackrefs prog) (p_maxparens prog) (p_op prog) ->
+    (forall s', matches prog [] 0 st0 <> MTrue s') ->
+    good_step_on (matches prog input) input minv.
+Proof. exact fragment_good_step. Qed.
+
 Print Assumptions C06_token_bound_partial.
 Print Assumptions C06_fused.
 Print Assumptions C06_engine_fragment_no_fuel_exhaustion_partial.
 Print Assumptions C06_analyze_bound_partial.
 Print Assumptions C06_analyze_fused.
+Print Assumptions C06_fragment_token_bound.
+Print Assumptions C06_fragment_good_step.
